@@ -655,9 +655,14 @@ impl Vm {
         // Go to handler location.
         frame.pc = u32::from(catch_address);
 
+        // Values pushed above the register file by the interrupted instruction sequence
+        // (e.g. the `this`, function and arguments of a call whose argument threw) are dead.
+        let stack_sp = frame.rp as usize + frame.code_block().register_count as usize;
+
         self.frame_mut()
             .environments
             .truncate(environment_sp as usize);
+        self.stack.stack.truncate(stack_sp);
 
         true
     }
@@ -929,6 +934,11 @@ impl Context {
             }
 
             if exit_early {
+                // Leave the stack as the top-level branch above does: the popped frames and
+                // this frame's own slots are gone.
+                self.vm.frame_mut().environments.truncate(env_fp as usize);
+                let frame = self.vm.frames.last().expect("frame must exist");
+                self.vm.stack.truncate_to_frame(frame);
                 return ControlFlow::Break(CompletionRecord::Throw(
                     self.vm
                         .pending_exception
